@@ -57,6 +57,11 @@ pub struct Tcp2Cfg {
     pub burst: Option<usize>,
     /// the alphabet includes `BlockedTick` (transient device back-pressure at a timer instant)
     pub allow_blocked_tick: bool,
+    /// the alphabet includes `Oversleep` (both hosts suspended for 25 days, frames in flight
+    /// kept): C02's premise "polled no later than poll_at" is void for such a run's past, but
+    /// the stream must still be a prefix (C01) and the connection must still complete once
+    /// polling resumes
+    pub allow_oversleep: bool,
 }
 
 impl Tcp2Cfg {
@@ -85,6 +90,7 @@ impl Tcp2Cfg {
             simul_open: false,
             burst: None,
             allow_blocked_tick: false,
+            allow_oversleep: false,
         }
     }
 }
@@ -124,7 +130,12 @@ pub enum Ev {
     /// frame (whatever the arrival makes the stack want to send cannot leave in that poll); the
     /// device accepts again afterwards and nothing is polled until the next event
     BlockedDeliver { to: usize },
+    /// both hosts are suspended for 2^31 ms + 1 s without a poll; frames in flight stay in flight
+    Oversleep,
 }
+
+/// 2^31 ms + 1 s in microseconds
+pub const OVERSLEEP_US: i64 = ((1i64 << 31) + 1_000) * 1_000;
 
 pub struct Frame {
     pub id: u64,
@@ -727,6 +738,9 @@ impl Harness for Tcp2 {
                 }
             }
         }
+        if self.cfg.allow_oversleep {
+            v.push((Ev::Oversleep, 1));
+        }
         if self.cfg.allow_stall {
             for side in 0..2 {
                 let e = &self.ends[side];
@@ -797,6 +811,22 @@ impl Harness for Tcp2 {
                 if let Some(d) = self.cached_deadline {
                     self.now = d;
                 }
+            }
+            Ev::Oversleep => {
+                // same rule as for Tick: an application that has been told nothing more can
+                // arrive reads what it has before it goes to sleep
+                let mut changed = false;
+                let lazy = self.cfg.lazy_reader;
+                for e in self.ends.iter_mut() {
+                    if !lazy && e.stalled && !matches!(e.state(), State::Established | State::FinWait1 | State::FinWait2) {
+                        e.stalled = false;
+                        changed = true;
+                    }
+                }
+                if changed {
+                    self.settle();
+                }
+                self.now += OVERSLEEP_US;
             }
             Ev::BlockedDeliver { to } => {
                 let fr = self.net[to].remove(0);
@@ -1008,6 +1038,11 @@ pub fn configs(tier: Tier) -> Vec<(Tcp2Cfg, u32)> {
     let ka2 = Tcp2Cfg { keep_alive_ms: Some(300), len: [60, 0], chunk: 25, ..b("keepalive-300ms-chunk25") };
     let blocked_fr = Tcp2Cfg { allow_blocked_tick: true, allow_stall: false, rx: [64, 512], tx: [512, 64], len: [240, 0], ..b("blocked-fast-retransmit") };
     let reuse2 = Tcp2Cfg { prefix: 2, len: [60, 20], ..b("reuse-after-close") };
+    // both hosts suspended for 25 days at any point of the connection
+    let over = Tcp2Cfg { allow_oversleep: true, len: [60, 20], ..b("oversleep-bidir") };
+    let over_cubic = Tcp2Cfg { allow_oversleep: true, cc: 2, len: [120, 0], rx: [64, 256], tx: [256, 64], ..b("oversleep-cubic") };
+    let over_ka = Tcp2Cfg { allow_oversleep: true, keep_alive_ms: Some(300), rx: [64, 16], len: [40, 0], ..b("oversleep-keepalive") };
+    let over_eth = Tcp2Cfg { allow_oversleep: true, eth: true, len: [60, 20], allow_stall: false, ..b("oversleep-eth-arp") };
     // sweep of stream lengths against a 24-byte transmit ring and a 10-byte peer window: for
     // some lengths the final unsent chunk straddles the end of the ring storage at close()
     let sweep_k = if tier == Tier::Quick { 1 } else { 2 };
@@ -1023,6 +1058,10 @@ pub fn configs(tier: Tier) -> Vec<(Tcp2Cfg, u32)> {
     }
     match tier {
         Tier::Quick => {
+            v.push((over, 3));
+            v.push((over_cubic, 3));
+            v.push((over_ka, 3));
+            v.push((over_eth, 3));
             v.push((lazy, 3));
             v.push((reuse1, 2));
             v.push((reuse2, 2));
@@ -1053,6 +1092,10 @@ pub fn configs(tier: Tier) -> Vec<(Tcp2Cfg, u32)> {
             v.push((wrap40, 2));
         }
         Tier::Thorough => {
+            v.push((over, 4));
+            v.push((over_cubic, 4));
+            v.push((over_ka, 4));
+            v.push((over_eth, 4));
             v.push((lazy, 4));
             v.push((reuse1, 3));
             v.push((reuse2, 3));
@@ -1122,6 +1165,7 @@ pub fn explore_all(rep: &mut Report, tier: Tier, keep: &[&str]) {
     rep.cov("signatures_of_other_properties_seen_in_these_runs", json!(other.into_iter().collect::<Vec<_>>()));
     rep.cov("rule", json!("deviation-bounded stateless search over event schedules of two real interfaces: all executions with <=k deviations (drop/dup/reorder/corrupt/timer-first/reader-stall), each continued under the default schedule to completion; oracles evaluated after every event"));
     rep.assumptions.push("bounds: <=k environment deviations per execution, transfers of 40-3000 bytes, listed configurations; default continuation = reliable FIFO delivery, eager applications".into());
+    rep.assumptions.push("oversleep-* configurations add the deviation 'both hosts suspended for 2^31 ms + 1 s without a poll, frames in flight kept' at any point of the connection (C01 prefix/Finished clauses and completion after polling resumes are judged as usual)".into());
     rep.assumptions.push("liveness decided as bounded reachability: every run must end with both sockets CLOSED and all bytes delivered; deadlock detected exactly, livelock by a 2000-event horizon".into());
     rep.assumptions.push("trusted: harness application model, independent TCP/IP parser (wirecheck)".into());
 }
